@@ -262,15 +262,15 @@ class Check(core.PropertyCheck):
                      for p in ("none", "alt") for pf in ("plainp", "query")}
             hosts |= {"h2", "v4"}
         return {"HC": hc, "Canon": canon, "Stored": stored, "Urls": frozenset(urls), "HostEdits": frozenset(hosts), "PortEdits": frozenset(ports),
-                "Shapes": frozenset(shapes), "MaxOps": 2 if tier == "quick" else 3}
+                "Shapes": frozenset(shapes), "MaxOps": 3}
 
     def model_runs(self, ctx):
         if ctx.quick:
             return [ctx.model_check(self.MODEL, self.model_constants("quick"), dump=True)]
-        # thorough: dumped graph = full tables with two edits; exhaustive statistics for three edits on the quick tables;
+        # thorough: dumped graph = full tables with two edits; exhaustive statistics for four edits on the quick tables;
         # simulated behaviours of up to five edits on the full tables
         small = ctx.model_check(self.MODEL, {**self.model_constants("thorough"), "MaxOps": 2}, dump=True)
-        big = ctx.model_check(self.MODEL, {**self.model_constants("quick"), "MaxOps": 3}, dump=False, tag="_big")
+        big = ctx.model_check(self.MODEL, {**self.model_constants("quick"), "MaxOps": 4}, dump=False, tag="_big")
         self._sim = ctx.simulate(self.MODEL, {**self.model_constants("thorough"), "MaxOps": 5}, num=3000, depth=7)[0]
         return [small, big]
 
@@ -295,8 +295,10 @@ class Check(core.PropertyCheck):
 
     def scenarios(self, ctx, models):
         g = models[0].graph
-        behs = g.edge_cover(ctx.rng, max_len=8, tail=0)
-        behs += getattr(self, "_sim", [])
+        if ctx.quick:  # every behaviour with two edits, a sample of those with three
+            behs = g.all_paths(3) + g.random_walks(ctx.rng, 2500, 6)
+        else:
+            behs = g.edge_cover(ctx.rng, max_len=8, tail=0) + getattr(self, "_sim", [])
         seen = set()
         n = 0
         for b in behs:
@@ -311,7 +313,7 @@ class Check(core.PropertyCheck):
                 seen.add(key)
                 yield core.Scenario(sc, predicted=core.predicted_events(b), source="model")
         rng = random.Random(ctx.seed * 15485863 + 33)
-        for _ in range(2500 if ctx.quick else 50000):
+        for _ in range(2500 if ctx.quick else 15000):
             yield core.Scenario(random_scenario(rng), source="random")
 
     def execute(self, sc):
